@@ -101,6 +101,12 @@ func closePipe(n *Named, name string) {
 
 	n.mutex.Lock()
 
+	if n.pipes[name].Pipe == nil {
+		// the pipe was closed twice or deleted during the grace period: nothing left to do
+		n.mutex.Unlock()
+		return
+	}
+
 	n.pipes[name].Pipe.Close()
 	delete(n.pipes, name)
 
@@ -121,9 +127,9 @@ func (n *Named) Delete(name string) error {
 		return errors.New("null pipe must not be closed")
 	}
 
+	delete(n.pipes, name)
 	n.mutex.Unlock()
 
-	delete(n.pipes, name)
 	return nil
 }
 
